@@ -259,11 +259,16 @@ impl<'a, 'b> SGen<'a, 'b> {
             .clone(),
             STy::Bool => Expr::Bool(self.src.bool()),
             STy::BitReg(n) => {
-                let mut s = String::from("\"");
-                for _ in 0..*n {
+                let q = if self.src.chance(1, 4) { '\'' } else { '"' };
+                let mut s = String::from(q);
+                for i in 0..*n {
                     s.push(if self.src.bool() { '1' } else { '0' });
+                    // single underscores between bits do not count as bits
+                    if i + 1 < *n && self.src.chance(1, 4) {
+                        s.push('_');
+                    }
                 }
-                s.push('"');
+                s.push(q);
                 Expr::BitStr(s)
             }
             STy::Duration => {
@@ -606,7 +611,31 @@ impl<'a, 'b> SGen<'a, 'b> {
     }
 
     fn simple(&mut self) -> Stmt {
-        match self.src.weighted(&[8, 6, 2, 2, 2, 2, 1, if self.in_loop { 2 } else { 0 }, if self.in_def { 2 } else { 0 }, 2, 1]) {
+        match self.src.weighted(&[8, 6, 2, 2, 2, 2, 1, if self.in_loop { 2 } else { 0 }, if self.in_def { 2 } else { 0 }, 2, 1, 2, 2]) {
+            11 => {
+                // expression statement led by an identifier, a minus sign or a parenthesis
+                let vs = self.visible(|k| matches!(k, EKind::Var { ty: STy::Int(_) | STy::Float(_), .. }));
+                if vs.is_empty() {
+                    return self.gate_call(None);
+                }
+                let x = Expr::Ident(vs[self.src.below(vs.len())].0.clone());
+                Stmt::ExprStmt(match self.src.below(3) {
+                    0 => Expr::Un(UnOp::Neg, bx(x)),
+                    1 => Expr::Paren(bx(x)),
+                    _ => x,
+                })
+            }
+            12 => {
+                // assignment to one element of a bit register
+                let vs = self.visible(|k| matches!(k, EKind::Var { ty: STy::BitReg(_), konst: false }));
+                if vs.is_empty() {
+                    return self.gate_call(None);
+                }
+                let (name, k) = vs[self.src.below(vs.len())].clone();
+                let EKind::Var { ty: STy::BitReg(n), .. } = k else { unreachable!() };
+                let i = self.src.below(n as usize) as u32;
+                Stmt::Assign { target: LValue::Indexed(name, vec![Index::List(vec![IndexItem::Expr(lit_int(i))])]), op: AssignOp::Assign, value: Expr::Measure(self.scalar_qubit()) }
+            }
             0 => self.gate_call(None),
             1 => self.assign(),
             2 => Stmt::Reset(self.qubit_operand()),
